@@ -102,6 +102,10 @@ class PropertyCheck:
         return impl == model
 
     # ---- extra obligations on facts extracted from the source (translators); return list of (name, ok, detail)
+    def pre_build(self):
+        """regenerate extracted facts (translators) before the Coq build"""
+        return None
+
     def extracted_obligations(self):
         return []
 
@@ -173,6 +177,7 @@ def main(prop, argv):
     broken = []          # names of theorems / obligations / correspondences that no longer check
 
     # ---------------- (1) proof obligations
+    prop.pre_build()
     bad = core.coq_gate()
     if bad:
         broken.append('gate: forbidden vernacular: ' + '; '.join(bad[:5]))
